@@ -107,6 +107,14 @@ def scan(ctx, rule, entries, in_scope, table, key_prefix_filter=None, extra_disc
                 continue
             if s.kind == "api" and "channel(0)" in s.desc:
                 v = F.const_int(s.operands[0])
+                if v is None:
+                    # a named constant (const QUEUE_LEN: usize = ..)
+                    op0 = dep.resolve_copy(b, s.operands[0])
+                    c0 = F.op_const(op0)
+                    if isinstance(c0, dict) and "named" in c0:
+                        cv = prog.consts.get(c0["named"])
+                        if cv and cv.get("val") and "int" in cv["val"]:
+                            v = int(cv["val"]["int"])
                 if v is not None and v > 0:
                     stats["interval"] += 1
                     ctx.ok(rule, s.key, s.loc, "channel capacity is the constant %d" % v)
